@@ -198,10 +198,30 @@ class Setting:
 
     # ---------------------------------------------------------------- type tracker as z3 arrays
     def tracker_value(self, name="tt"):
+        """A tracker whose id -> type map is arbitrary (four z3 arrays). Whatever else the tracker keeps besides the map is what
+        `TypeTracker::new()` (executed from its MIR) puts there — so a tracker with further fields is still a well-formed value."""
         I = z3.BitVecSort(32)
-        return sym.Adt("TypeTracker", None, [sym.Adt("HashMapModel", None, [
+        themap = sym.Adt("HashMapModel", None, [
             z3.Array(name + ".present", I, z3.BoolSort()), z3.Array(name + ".isfloat", I, z3.BoolSort()),
-            z3.Array(name + ".width", I, I), z3.Array(name + ".signed", I, z3.BoolSort())])])
+            z3.Array(name + ".width", I, I), z3.Array(name + ".signed", I, z3.BoolSort())])
+        shape = getattr(self, "_tracker_shape", None)
+        if shape is None:
+            shape = False
+            try:
+                c = [x for x in self.mf.find("new") if "tracker.rs" in x[0] and "closure" not in x[0] and re.search(r"-> (\w+::)*TypeTracker", self.mf.lines[x[2]])]
+                if len(c) == 1:
+                    marker = sym.Adt("HashMapModel", None, [])
+                    eng = self.engine([(r"^HashMap::<u32, .*>::new$|^<HashMap<u32, .*> as Default>::default$", lambda e, s_, f, c_, a, o: marker)])
+                    r0 = [r for r in eng.run(self.mf.parse_item(c[0][2]), [], mem={}) if r.status == "return"]
+                    if len(r0) == 1 and isinstance(r0[0].value, sym.Adt) and sum(1 for f in r0[0].value.fields if f is marker) == 1 and len(r0[0].value.fields) > 1:
+                        shape = (r0[0].value, marker)
+            except Exception:
+                shape = False
+            self._tracker_shape = shape
+        if shape:
+            v, marker = shape
+            return sym.Adt(v.ty, v.variant, [themap if f is marker else f for f in v.fields])
+        return sym.Adt("TypeTracker", None, [themap])
 
     def m_map_get(self, engine, st, fr, callee, args, ops):
         m = sym._deref_arg(engine, st, args[0])
